@@ -85,6 +85,18 @@ impl<T: AsRawFd> AsyncFd<T> {
 }
 impl<T: AsRawFd> AsRawFd for AsyncFd<T> { fn as_raw_fd(&self) -> RawFd { self.0.as_raw_fd() } }
 
+/// nix::sys::socket::shutdown: which half of the connection is closed is the point of the call
+static mut SHUT_FD: i32 = -1;
+static mut SHUT_HOW: u8 = 0;          // 1 = Read, 2 = Write, 3 = Both
+static mut SHUT_OK: bool = true;
+pub mod nix { pub mod sys { pub mod socket {
+    #[derive(Clone, Copy, PartialEq, Eq)] pub enum Shutdown { Read, Write, Both }
+    pub fn shutdown(fd: crate::RawFd, how: Shutdown) -> Result<(), crate::Errno> { unsafe {
+        crate::SHUT_FD = fd; crate::SHUT_HOW = match how { Shutdown::Read => 1, Shutdown::Write => 2, Shutdown::Both => 3 };
+        if crate::SHUT_OK { Ok(()) } else { Err(crate::Errno::EPIPE) }
+    } }
+} } }
+
 include!("async_splice.in.rs");
 
 pub fn run_ready<F: std::future::Future>(f: F) -> F::Output {
@@ -119,6 +131,20 @@ fn async_splice_reports_what_the_kernel_did() {
         kani::cover!(r == Ok(0));
         kani::cover!(matches!(r, Ok(n) if n > 0) && N_SPLICE == 2);
         kani::cover!(r.is_err() && !READY_ERR);
+    }
+}
+#[cfg(kani)]
+#[kani::proof]
+fn shutdown_write_is_a_half_close() {
+    unsafe { SHUT_OK = kani::any(); }
+    let fd = AsyncFd(OwnedFd(8));
+    let r = shutdown_write(&fd);
+    unsafe {
+        // C04: the end of ONE direction is relayed: only the sending side of this descriptor is shut down (the opposite
+        // direction runs on a duplicate of the same socket and must keep flowing)
+        assert!(SHUT_FD == 8 && SHUT_HOW == 2, "not a half-close of the destination's sending side");
+        assert!(r.is_ok() == SHUT_OK);
+        kani::cover!(r.is_err());
     }
 }
 fn main() {}
